@@ -305,3 +305,59 @@ Theorem C14_records_equal_phi :
 Proof. exact (@Net_props3.C14_records_equal_phi). Qed.
 
 Print Assumptions C14_records_equal_phi.
+
+(* ---- the wire between the two ghosts (package K, Net_proofs42/46): every wantlist on Net.v's wire is an OSendWantlist
+   output of the sender's Client.v, and every wantlist a server half processed is `proto_of` of one the peer's client emitted:
+   nothing is invented, duplicated or altered between the client model and the server model. *)
+From BS Require Import Types Wantlist Wantlist_proofs2 Client Client_proofs Client_proofs4 Net Net_proofs Net_proofs6 Net_props Net_proofs2 Net_proofs5 Net_proofs21 Net_proofs40 Net_proofs41 Net_proofs42 Net_proofs43 Net_proofs44 Net_proofs45 Net_proofs46 Net_proofs47 Server Net_props4.
+From Coq Require Import ZArith Lia.
+Open Scope N_scope.
+
+Theorem wire_is_client_output :
+  forall (Sz : N) (Hh : hash_fn) (n : nat) (ops : list nop) (i : N) (m : wmsg),
+  In m (wsent_run Sz Hh (net_init n) ops i) ->
+  wm_src m = i /\
+  In (OSendWantlist (wm_dst m) CONN (wm_full m) (wm_entries m))
+    (outs_after true (cops_run Sz Hh (net_init n) ops i)).
+Proof. exact (@Net_props4.wire_is_client_output). Qed.
+
+Theorem server_receives_client_output :
+  forall (Sz : N) (Hh : hash_fn) (n : nat) (ops : list nop) (j : N) (a : peer) (w : wantlist) (ord : list cid),
+  In (SMsg a w ord) (sops_run Sz Hh (net_init n) ops j) ->
+  exists (full : bool) (es : list gen_entry),
+    w = proto_of true full es /\
+    ord = order_of Sz w /\
+    In (OSendWantlist j CONN full es) (outs_after true (cops_run Sz Hh (net_init n) ops a)).
+Proof. exact (@Net_props4.server_receives_client_output). Qed.
+
+Theorem wire_w_sent :
+  forall (Sz : N) (Hh : hash_fn) (ops : list nop) (s : net) (m : wmsg),
+  In m (wire_w (fst (nrun Sz Hh s ops))) -> In m (wire_w s) \/ In m (wsent_run Sz Hh s ops (wm_src m)).
+Proof. exact (@Net_props4.wire_w_sent). Qed.
+
+Print Assumptions wire_is_client_output.
+Print Assumptions server_receives_client_output.
+Print Assumptions wire_w_sent.
+
+(* ---- and with Net.v's own settle / refresh, no "ended quiet" hypotheses (package J) *)
+From BS Require Import Net Net_proofs Net_proofs2 Net_proofs5 Net_proofs6 Net_proofs7 Net_proofs9 Net_proofs10 Net_props Net_props2
+  Net_proofs23 Net_proofs24 Net_proofs27 Net_proofs28 Net_proofs29 Net_proofs31 Net_proofs32 Net_proofs34 Net_proofs35 Net_proofs36 Server Server_inv Net_props3.
+From Coq Require Import ZArith Lia.
+Open Scope N_scope.
+
+Theorem C14_records_equal_unconditional :
+  forall (Sz : N) (Hh : hash_fn),
+  32 <= Sz ->
+  forall (i j : N) (n : nat) (ops : list nop),
+  Forall (nop_good Sz Hh) ops ->
+  Forall (nop_wf Sz) ops ->
+  let s := fst (nrun Sz Hh (net_init n) ops) in
+  Net.connected s i j = true ->
+  let r1 := settle Sz Hh s in
+  let r2 := refresh Sz Hh (fst r1) in
+  (length (wl_i i (fst r1)) <= 1024)%nat ->
+  forall c : cid,
+  In c (wl_i i (fst r2)) <-> (exists st : sstate, server_of (fst r2) j = Some st /\ wantsP (s_wants st) i c).
+Proof. exact (@Net_props3.C14_records_equal_unconditional). Qed.
+
+Print Assumptions C14_records_equal_unconditional.
